@@ -695,7 +695,7 @@ def run(tier, seed):
     # probe batch first: when the implementation hangs/crashes on many scripts (e.g. a broken status
     # test) every case costs a watchdog timeout — report and do not run the remaining thousands
     nprobe = min(len(glines), 360)
-    impl = par_resilient(gvt, ["script"], glines[:nprobe], workers=12, per_case_timeout=6)
+    impl = par_resilient(gvt, ["script"], glines[:nprobe], workers=12, per_case_timeout=20)
     nbad = sum(1 for o in impl if o.split(" ")[1:2] in (["HANG"], ["CRASH"]))
     if nbad > 5:
         ck.log("(a) %d of the first %d scripts hang/crash: skipping the remaining scripts" % (nbad, nprobe))
